@@ -266,7 +266,9 @@ bool resolve_expected(const RUri &base, const RUri &r, bool strict, Expected &e)
         e.regime = 2;
         std::vector<Str> E = remove_dots_list(split_path(pre), false);
         e.path = join_path(E);
-        if (E.size() > 1 && E[0].empty()) { e.has_alt = true; e.alt_path = "./" + e.path; e.alt_path = "." + Str("/") + e.path; }
+        // a host-less text that starts with "//" would be read back as an authority: there the '.' segment is required, not optional
+        if (E.size() > 2 && E[0].empty() && E[1].empty()) e.path = "./" + e.path;
+        else if (E.size() > 1 && E[0].empty()) { e.has_alt = true; e.alt_path = "./" + e.path; }
         e.t.path = e.path;
         return true;
     }
